@@ -22,6 +22,11 @@ def M(id_, file, old, new, props):
 
 
 MUTANTS = [
+    M('nautilus-cache-not-consumed', N, "            self.points = self.points[n_points:]\n", "", 'C08 C03'),
+    M('union-cache-not-consumed', U, "        self.points = self.points[n_points:]\n", "", 'C08 C03'),
+    M('worker-not-reset', N, "        self.reset(rng=rng)\n        self.sample(n_points=n_points, return_points=False)",
+      "        self.sample(n_points=n_points, return_points=False)", 'C08'),
+    M('union-proposals-not-shuffled', U, "            self.rng.shuffle(points)\n", "", 'C08'),
     M('double-modulo-in-one-store', PS, '        for i, dim in enumerate(self.periodic):\n            points_t[:, dim] = (points_t[:, dim] + (-1 if inverse else +1) *\n                                (-self.centers[i] + 0.5)) % 1\n            # The modulo of a tiny negative number rounds to exactly 1.\n            points_t[:, dim] = points_t[:, dim] % 1\n',
       "        sign = -1 if inverse else +1\n"
       "        for i, dim in enumerate(self.periodic):\n"
